@@ -182,7 +182,7 @@ def run(ctx):
     ctx.cov['evaluations'] = nevals
     ctx.cov['ub_reports'] = sum(1 for o in recs if o['ub'])
     ctx.cov['aborted_cases'] = len(aborts)
-    for o in (recs[5], recs[len(recs) // 2], recs[-3]):
+    for o in [recs[min(k, len(recs) - 1)] for k in (5, len(recs) // 2, max(0, len(recs) - 3)) if recs]:
         ctx.sample({k: (v if k not in ('out', 'last') else v[:4]) for k, v in o.items()})
     ctx.cov['rule'] = ('tlc_checked_cases counts helper evaluations (one recorded line holds one fixed leading argument and a list of last arguments). Complete: every '
                        '8-bit x 8-bit value pair for Less<A,B> and IncreaseSum<A,B> with A,B in {int8,uint8}; NaturalSum<S>(a,b)%s with S,A,B in {int8,uint8}. Lattice: for every ordered pair of the '
